@@ -65,8 +65,24 @@ Clauses(o, ev, o2) ==
                     /\ ~App(o, a).rstart /\ App(o, a).done = "" /\ Wire(o, a).heads = 0
                     \* (... on a connection the exchange before it left open for another one)
                     /\ (r.idx = 1 \/ Reusable(o, o.order[r.idx - 1]))
-            IN IF \E a \in DOMAIN o.reqs : Broken(a)
-               THEN <<F("close-not-announced", "message-went-wrong-before-any-response")>> ELSE <<>>
+                \* ... and never under a request it is serving, unprovoked (no shutdown, the client present, no
+                \* write failure, no client error, the application still at work and well-behaved)
+                Under(a) ==
+                    LET r == Req(o, a) IN
+                    /\ r.known /\ r.kind = "http" /\ r.head /\ ~r.bad /\ r.done
+                    /\ ~o.gone /\ ~o.reset /\ ~o.tfail /\ ~o.shut /\ ~o.cerr /\ ~o.winddown /\ ~o.paused
+                    /\ App(o, a).started > 0 /\ App(o, a).done = "" /\ App(o, a).sendExc = 0 /\ App(o, a).disc = 0
+                    /\ Wire(o, a).ends = 0
+                    /\ (r.idx = 1 \/ Reusable(o, o.order[r.idx - 1]))
+                    /\ ~UnreadLeft(o)
+            IN (IF \E a \in DOMAIN o.reqs : Broken(a)
+                THEN <<F("close-not-announced", "message-went-wrong-before-any-response")>> ELSE <<>>)
+            \o (IF \E a \in DOMAIN o.reqs : Under(a)
+                THEN <<F("close-not-announced",
+                         IF \E a \in DOMAIN o.reqs : /\ Under(a) /\ Req(o, a).idx >= o.cfg.kamax
+                                                       /\ \E b \in DOMAIN o.reqs : Req(o, b).begun /\ Req(o, b).idx > Req(o, a).idx
+                         THEN "closed-under-a-request-in-progress/at-request-maximum-with-pipelined-request-pending"
+                         ELSE "closed-under-a-request-in-progress")>> ELSE <<>>)
       [] ev.e = "quiescent" ->
             LET n == Len(o.order)
                 NotClosed(k) ==
